@@ -21,24 +21,10 @@ EXPLANATION = (
 
 PLANNER_BACKENDS = ('@backend_flat_xor_hd', '@backend_liberasurecode_rs_vand', '@backend_isa_l_rs_vand')
 
-def run(ctx):
-    P = ctx.program()
+def rule_planners(ctx, P, rc, rd, backends):
     cg = callgraph.get(P)
-    r = ctx.rule('R06a', 'fragments_needed cone: fallible results are returned or tested',
-                 'an adapter that returns 0 unconditionally reports success with the list untouched')
-    chains.propagation_rule(P, r, ['fragments_needed'], shared.IN_SCOPE_BACKENDS, 'chain')
-    r.require_min(5)
-
-    r = ctx.rule('R05e', 'index spaces in the XOR planners/decoders (parity-relative vs absolute)')
-    xorrules.index_space_rule(P, r)
-    r.require_min(12)
-
-    rc = ctx.rule('R06c', 'both the to-reconstruct and the to-exclude list influence what is written to fragments_needed[]',
-                  'a planner that ignores the exclude list hands back fragments the caller said are unavailable')
-    rd = ctx.rule('R06d', 'terminator and return structure of the planners',
-                  'a list without -1 terminator, or -1 returned although k usable fragments exist')
     seen = set()
-    for be in PLANNER_BACKENDS:
+    for be in backends:
         c = cg.common[be]
         fname = cg.op_tables[c['ops']]['fragments_needed']
         # the function that actually writes the list: follow adapters that only forward
@@ -168,6 +154,24 @@ def run(ctx):
             rd.ok(f'{f.name}: stored indexes are the loop variable < k+m', func=f.name, loc=s0.loc)
         else:
             rd.fail(f'{f.name}: stored index range', func=f.name, sig=f'index bound {ub}', loc=s0.loc, msg=f'indexes written to the list are bounded by {ub}, not k+m')
+
+def run(ctx):
+    P = ctx.program()
+    cg = callgraph.get(P)
+    r = ctx.rule('R06a', 'fragments_needed cone: fallible results are returned or tested',
+                 'an adapter that returns 0 unconditionally reports success with the list untouched')
+    chains.propagation_rule(P, r, ['fragments_needed'], shared.IN_SCOPE_BACKENDS, 'chain')
+    r.require_min(5)
+
+    r = ctx.rule('R05e', 'index spaces in the XOR planners/decoders (parity-relative vs absolute)')
+    xorrules.index_space_rule(P, r)
+    r.require_min(12)
+
+    rc = ctx.rule('R06c', 'both the to-reconstruct and the to-exclude list influence what is written to fragments_needed[]',
+                  'a planner that ignores the exclude list hands back fragments the caller said are unavailable')
+    rd = ctx.rule('R06d', 'terminator and return structure of the planners',
+                  'a list without -1 terminator, or -1 returned although k usable fragments exist')
+    rule_planners(ctx, P, rc, rd, PLANNER_BACKENDS)
     # ---------------- R06e sibling agreement planner <-> decoder on the P xor Q equation
     r = ctx.rule('R06e', 'planner and decoder agree on the combined P-xor-Q equation for three missing data',
                  'the planner must request exactly the fragments decode_three_data will read')
